@@ -35,8 +35,12 @@ def run(ctx):
     ]
     ctx.cov["refuted_lemmas"] = []
     proved = ctx.prove("C05", extracted=["CallCacheConsts"])
-    if ctx.tier == "thorough" and proved:
+    # whole programs and sessions: the same protocol inside the machine of Model/Session.v (arities, per-layout index
+    # vectors, snapshots, frames, the driver loop); the machine itself is tied to the implementation by C14's sessions
+    proved2 = ctx.prove("C05Session", extracted=["CallCacheConsts", "ReplShape"])
+    if ctx.tier == "thorough" and proved and proved2:
         ctx.coqchk("C05")
+        ctx.coqchk("C05Session")
     ok, out = vlib.coq_make(["Base/CaseCheck.vo", "Model/CallCache.vo"])
     if not ok:
         ctx.broken.append("coq: model files for the C05 tie do not build")
